@@ -1,12 +1,13 @@
 //! Conformance harness for the wire-level properties (zvariant, zbus_names).
 //! Usage: wire <command> [args...]; see each module.
 mod codec;
+mod depth;
 mod gen;
 mod model;
 
 fn main() {
     // panics inside the code under test are data: keep them quiet, they are reported per case
-    std::panic::set_hook(Box::new(|_| {}));
+    if std::env::var("VERIF_PANIC_VERBOSE").is_err() { std::panic::set_hook(Box::new(|_| {})); }
     let args: Vec<String> = std::env::args().collect();
     let rest = &args[2..];
     match args[1].as_str() {
@@ -14,6 +15,7 @@ fn main() {
         "obs-dec" => codec::cmd_obs_dec(rest),
         "rand-enc" => codec::cmd_rand_enc(rest),
         "rand-dec" => codec::cmd_rand_dec(rest),
+        "obs-depth" => depth::cmd_obs_depth(rest),
         other => {
             eprintln!("unknown command {other}");
             std::process::exit(2);
